@@ -95,6 +95,10 @@ def main(argv):
     from sims import _ENGINES
     for name in names:
         prop = name.split("-")[0]
+        mp = os.path.join(VERIF, "seeded", name, "meta.json")
+        if mode == "check" and os.path.exists(mp) and json.load(open(mp)).get("obsolete"):
+            print(f"skip   {name} (obsolete: no longer a breaking change on the current tree, see meta.json)", flush=True)
+            continue
         if mode == "verify":
             out = verify(name)
             print(name, json.dumps(out), flush=True)
